@@ -137,7 +137,8 @@ NoMatch ==
      \/ pc = "walk" /\ rest # <<>> /\ Head(rest) = "X"
   /\ Return(None, IF "KeepOnNoMatch" \in Dev THEN pending ELSE Cleared)
 
-(* any other exception propagates out of __call__; nothing resets __i                    *)
+(* any other exception propagates out of __call__.  Before commit 2d3ae16 nothing reset __i  *)
+(* (Dev = {}); since then the except clause resets it (Dev = {"ResetOnRaise"}).          *)
 HookRaises ==
   /\ pc = "walk" /\ rest # <<>> /\ Head(rest) = "E"
   /\ Return(Raised, IF "ResetOnRaise" \in Dev THEN Cleared ELSE pending)
